@@ -34,10 +34,16 @@ Proof. intros H. unfold u64. apply N.mod_small. exact H. Qed.
 Lemma two64_pos : 0 < two64.
 Proof. reflexivity. Qed.
 
+(* UpdateOnSync reacts to every syncID whose successor fits in uint64: recovery can always follow the live generator,
+   whatever IDs it handed out (re-opened when the guard of UpdateOnSync is tightened) *)
+Lemma layout_update_on_sync_limit : two64 - 2 <= c04_update_on_sync_limit.
+Proof. vm_compute. discriminate. Qed.
+
 Lemma update_on_sync_spec g id : id + 1 < two64 -> update_on_sync g id = if g <=? id then id + 1 else g.
 Proof.
-  intros H. unfold update_on_sync, update_on_sync_gen.
-  assert (E : (id + 1 <? two64) = true) by lia. rewrite E, orb_true_r, andb_true_r.
+  intros H. unfold update_on_sync, update_on_sync_gen. pose proof layout_update_on_sync_limit as L.
+  assert (TW : two64 = 18446744073709551616) by reflexivity.
+  assert (E : (id <=? c04_update_on_sync_limit) = true) by lia. rewrite E, andb_true_r.
   destruct (g <=? id); [apply u64_small; exact H|reflexivity].
 Qed.
 
